@@ -70,6 +70,20 @@ def build_case(case):
 
     extra_cells = 0
     if kind == "scratchvar" or kind == "dyn":
+        if placement == "main_branch":
+            # everything happens in a block that is NOT the routine's entry block, and every cell is read back
+            # right after it was written (adjacent store/load: the shape the slot optimiser looks for)
+            vs = [mk(i) for i in range(n)]
+            body = []
+            for i, v in enumerate(vs):
+                body += [v.store(M(i)), pt.Assert(v.load() == M(i))]
+            body += [pt.Assert(v.index() == pt.Int(req[i])) for i, v in enumerate(vs) if i in req]
+            if kind == "dyn":
+                d = pt.DynamicScratchVar(pt.TealType.uint64)
+                extra_cells += 1
+                for i in sorted(set([0, n // 2, n - 1])):
+                    body += [d.set_index(vs[i]), pt.Assert(d.load() == M(i))]
+            return pt.Seq(pt.If(pt.Txn.fee() < pt.Int(1 << 40)).Then(pt.Seq(*body)), pt.Int(1)), n + extra_cells
         if placement == "main":
             vs = [mk(i) for i in range(n)]
             body = [v.store(M(i)) for i, v in enumerate(vs)] + checks(vs, range(n))
@@ -218,6 +232,12 @@ def check_case(case, out):
             cnt["executions"] = cnt.get("executions", 0) + 1
             if res.verdict != "APPROVE":
                 why = "program with %d cells does not approve: %s %s at line %s" % (cells, res.verdict, res.why, res.line)
+            elif case["kind"] in ("scratchvar", "dyn") and case["placement"] in ("main", "main_branch") and any(
+                    res.scratch[sid] != 100000 + i for i, sid in req_pattern(case["req"], case["n"]).items()):
+                # "an explicitly requested slot id is the slot actually used"
+                bad_ = [(i, sid, res.scratch[sid]) for i, sid in req_pattern(case["req"], case["n"]).items() if res.scratch[sid] != 100000 + i]
+                why = "variable %d requested slot %d and holds %d, but slot %d contains %r when the program ends" % (
+                    bad_[0][0], bad_[0][1], 100000 + bad_[0][0], bad_[0][1], bad_[0][2])
             else:
                 # static cross-check: number of distinct slots stored == scratch cells actually written
                 slots = set(i.args[0] for i in p.instrs if i.op == "store" and i.args)
@@ -262,6 +282,11 @@ def run(tier):
                         continue  # nothing to split
                     for cfg in (cfgs if tier == "thorough" or req in ("none", "low_block") else cfgs[:1] + cfgs[2:3]):
                         items.append({"n": n, "req": req, "placement": placement, "kind": kind, "cfg": cfg.to_json()})
+        if n <= 130:
+            for req in ("none", "top", "both", "low_block", "mid_block", "interleaved"):
+                for kind in ("scratchvar", "dyn"):
+                    for cfg in cfgs:
+                        items.append({"n": n, "req": req, "placement": "main_branch", "kind": kind, "cfg": cfg.to_json()})
         for placement in ("main", "sub", "abisub"):
             for cfg in cfgs:
                 items.append({"n": n, "req": "none", "placement": placement, "kind": "abi", "cfg": cfg.to_json()})
